@@ -132,6 +132,9 @@ def run_shard(desc):
 
     def crashed(run, steps, what):
         kind_, detail = common.crash_verdict(run, what)
+        if kind_ is None and run.ended and run.gave_up:
+            part["inconclusive"].append("%s: %d logical-clock waits timed out (machine overloaded); run discarded" % (what, run.gave_up))
+            return True
         if kind_ is None and run.ended:
             return False
         if kind_ in ("signal", "hang", "deadlock"):
